@@ -27,7 +27,8 @@ ASSUMPTIONS = ["well-formed lanelets: simple polygons (generator guarantees it, 
                "get_obstacles member-wise", "get_obstacles needs obstacles that have an occupancy at the queried time",
                "file routes use coordinates rounded to 4 decimals (exactly representable at the writer precision)"]
 
-ROUTES = ["list", "add", "scenario", "scenario-network", "deepcopy", "pickle", "xml", "pb"]
+ROUTES = ["list", "add", "scenario", "scenario-network", "deepcopy", "pickle", "from-network", "batch-removal", "xml",
+          "pb"]
 
 
 def round_net(net, nd=4):
@@ -38,12 +39,32 @@ def round_net(net, nd=4):
 
 
 def build_by_route(net, route):
-    if route in ("list", "deepcopy", "pickle"):
+    if route in ("list", "deepcopy", "pickle", "from-network"):
         n = LaneletNetwork.create_from_lanelet_list([gs.build_lanelet(l) for l in net["lanelets"]])
-        if route == "deepcopy":
+        if route == "from-network":
+            n = LaneletNetwork.create_from_lanelet_network(n)
+        elif route == "deepcopy":
             n = copy.deepcopy(n)
         elif route == "pickle":
             n = pickle.loads(pickle.dumps(n))
+        return n
+    if route == "batch-removal":
+        # the documented batch use of remove_lanelet: rtree=False for all but the last removal; the lanelets removed
+        # here coincide with kept ones, so a stale index entry shows up in every query that hits them
+        import copy as _copy
+        n = LaneletNetwork()
+        ghosts = []
+        for i, l in enumerate(net["lanelets"]):
+            n.add_lanelet(gs.build_lanelet(l), rtree=False)
+            if i < 2:
+                g = gs.build_lanelet(dict(l, id=90000 + i, pred=[], succ=[], adj_left=None, adj_right=None))
+                n.add_lanelet(g, rtree=False)
+                ghosts.append(90000 + i)
+        n._create_strtree() if False else n.add_lanelet(gs.build_lanelet(dict(net["lanelets"][0], id=90009, pred=[],
+                                                                              succ=[], adj_left=None, adj_right=None)))
+        ghosts.append(90009)
+        for k, gid in enumerate(ghosts):
+            n.remove_lanelet(gid, rtree=(k == len(ghosts) - 1))
         return n
     if route == "add":
         n = LaneletNetwork()
@@ -410,8 +431,8 @@ def check_mapping(r, ctx):
 
 FACETS = [
     Facet("position-lookup", check_position, strategy=s_position, quick=2400, thorough=120000,
-          rule="networks of 1-6 lanelets (chains, neighbours sharing a boundary, crossing, far apart) built by 8 routes "
-               "(list, add, scenario, scenario+network, deepcopy, pickle, XML, protobuf) x 1-8 points (inside, on "
+          rule="networks of 1-6 lanelets (chains, neighbours sharing a boundary, crossing, far apart) built by 9 routes "
+               "(list, add, scenario, scenario+network, deepcopy, pickle, create_from_lanelet_network, XML, protobuf) x 1-8 points (inside, on "
                "boundaries, outside near, vertices, far, free); find_lanelet_by_position and Lanelet.contains_points vs "
                "brute force; non-trivial = >= 2 lanelets and the truth set is non-empty and not everything, or >= 2 hits"),
     Facet("shape-lookup", check_shape_lookup, strategy=s_shape_lookup, quick=2400, thorough=120000,
